@@ -56,6 +56,9 @@ class World:
         if f == "chainz":
             z = rel.engine.make_doomed_relation(build.tags(("a", "b")), ["statically empty"], name="Z")
             return rel.chain(z)
+        if f == "chainzl":
+            z = rel.engine.make_doomed_relation(build.tags(("a", "b")), ["statically empty"], name="Z")
+            return z.chain(rel)
         if f == "chainself":
             return rel.chain(rel)
         raise MachineryError(f"unknown call {c}")
